@@ -451,8 +451,12 @@ func exec(line string, st *hx.Stats) string {
 		var parts []string
 		for pass := 0; pass < 2; pass++ {
 			for _, s := range steps {
+				t0 := time.Now()
 				a := ask(rg.cached, splitStore, splitModel, s, ctxOf[s.sel])
+				t1 := time.Now()
 				b := ask(rg.plain, refStore[s.sel][0], refStore[s.sel][1], s, nil)
+				st.Add("ms:"+eng+":"+s.kind+":cached", int(t1.Sub(t0).Milliseconds()))
+				st.Add("ms:"+eng+":"+s.kind+":plain", int(time.Since(t1).Milliseconds()))
 				mark := ""
 				if a != b {
 					st.Inc("mismatch:" + s.kind)
